@@ -572,6 +572,22 @@ func OpenWith(path string, vLogs []appendable.Appendable, txLog, cLog appendable
 	tx, _ := txPool.Alloc()
 
 	for {
+		// With embedded values each tx record is preceded by the total length of its values
+		// (2 bytes) and the values themselves (see performPrecommit): they have to be skipped
+		// here, otherwise the record is mis-read and the whole pre-committed backlog discarded.
+		txValues, err := readEmbeddedValuesPrefix(txReader, embeddedValues)
+		if err != nil {
+			if !errors.Is(err, io.EOF) {
+				opts.logger.Infof("%v: discarding pre-committed transaction: %d", err, precommittedTxID+1)
+			}
+			break
+		}
+
+		txPrefixLen := 0
+		if embeddedValues {
+			txPrefixLen = sszSize + len(txValues)
+		}
+
 		err = tx.readFrom(txReader, false)
 		if errors.Is(err, io.EOF) {
 			break
@@ -583,6 +599,13 @@ func OpenWith(path string, vLogs []appendable.Appendable, txLog, cLog appendable
 
 		if tx.header.ID != precommittedTxID+1 || tx.header.PrevAlh != precommittedAlh {
 			opts.logger.Infof("%v: discarding pre-committed transaction: %d", ErrCorruptedData, precommittedTxID+1)
+			break
+		}
+
+		if embeddedValues && !embeddedValuesMatch(tx, txValues, precommittedTxLogSize+int64(sszSize)) {
+			// the 2-byte length prefix wraps for 64KiB of values or more: such a record cannot be
+			// located by a sequential scan and is dropped, as every embedded record was before
+			opts.logger.Infof("%v: embedded values do not match, discarding pre-committed transaction: %d", ErrCorruptedData, precommittedTxID+1)
 			break
 		}
 
@@ -598,9 +621,10 @@ func OpenWith(path string, vLogs []appendable.Appendable, txLog, cLog appendable
 		precommittedTxID++
 		precommittedAlh = tx.header.Alh()
 
-		txSize := int(txReader.ReadCount() - (precommittedTxLogSize - committedTxLogSize))
+		txSize := int(txReader.ReadCount()-(precommittedTxLogSize-committedTxLogSize)) - txPrefixLen
+		txOff := precommittedTxLogSize + int64(txPrefixLen)
 
-		err = cLogBuf.put(precommittedTxID, precommittedAlh, precommittedTxLogSize, txSize)
+		err = cLogBuf.put(precommittedTxID, precommittedAlh, txOff, txSize)
 		if errors.Is(err, ErrBufferIsFull) {
 			// Recovery path: cLogBuf is sized at MaxActiveTransactions,
 			// which caps in-flight precommitted txs as a runtime back-
@@ -610,14 +634,14 @@ func OpenWith(path string, vLogs []appendable.Appendable, txLog, cLog appendable
 			// buffer to fit instead of refusing to open the store. See
 			// issue #2086.
 			cLogBuf.grow(2 * len(cLogBuf.buf))
-			err = cLogBuf.put(precommittedTxID, precommittedAlh, precommittedTxLogSize, txSize)
+			err = cLogBuf.put(precommittedTxID, precommittedAlh, txOff, txSize)
 		}
 		if err != nil {
 			txPool.Release(tx)
 			return nil, fmt.Errorf("%v: while loading pre-committed transaction: %v", err, precommittedTxID+1)
 		}
 
-		precommittedTxLogSize += int64(txSize)
+		precommittedTxLogSize += int64(txPrefixLen + txSize)
 	}
 
 	txPool.Release(tx)
@@ -785,6 +809,53 @@ func OpenWith(path string, vLogs []appendable.Appendable, txLog, cLog appendable
 	}
 
 	return store, nil
+}
+
+// readEmbeddedValuesPrefix consumes what performPrecommit writes in front of a tx record when values
+// are embedded into the tx log: the total length of the values (2 bytes) and the values.
+func readEmbeddedValuesPrefix(r *appendable.Reader, embeddedValues bool) ([]byte, error) {
+	if !embeddedValues {
+		return nil, nil
+	}
+
+	valuesLen, err := r.ReadUint16()
+	if err != nil {
+		return nil, err
+	}
+
+	values := make([]byte, valuesLen)
+
+	_, err = r.Read(values)
+	if err != nil {
+		return nil, err
+	}
+
+	return values, nil
+}
+
+// embeddedValuesMatch reports whether the values found in front of a pre-committed tx record are the
+// ones the record refers to: consecutive offsets starting at valuesOff, lengths adding up to the
+// prefix, digests as stored in the record.
+func embeddedValuesMatch(tx *Tx, values []byte, valuesOff int64) bool {
+	i := 0
+
+	for _, e := range tx.Entries() {
+		if e.vLen == 0 {
+			continue
+		}
+
+		if e.vOff != valuesOff+int64(i) || e.vLen > len(values)-i {
+			return false
+		}
+
+		if e.hVal != sha256.Sum256(values[i:i+e.vLen]) {
+			return false
+		}
+
+		i += e.vLen
+	}
+
+	return i == len(values)
 }
 
 // precommittedValuesReadable reports whether every value referenced by a pre-committed transaction
